@@ -139,6 +139,19 @@ func genVC(P *Program, C *Contracts, S *Sorts, key string, pure map[*ssa.Functio
 	if ct.Panics != nil && len(ct.Panics.Tags) > 0 {
 		ptags = ct.Panics.Tags
 	}
+	if ct.PanicsMay != nil {
+		if ct.Panics != nil {
+			ex.fail("%s: both panics and panics_may", key)
+		}
+		panicsCond = ex.def("panicsmay", "Bool", substSX(ct.PanicsMay.Term, envPre))
+		if len(ct.PanicsMay.Tags) > 0 {
+			ptags = ct.PanicsMay.Tags
+		}
+	}
+	var rejectConds []string
+	for _, r := range ct.Rejects {
+		rejectConds = append(rejectConds, ex.def("rejects", "Bool", substSX(r.Term, envPre)))
+	}
 	f.onPanic = func(cond, kind, anchor string, _ *State) {
 		if ct.MayPanic {
 			return
@@ -278,9 +291,16 @@ func genVC(P *Program, C *Contracts, S *Sorts, key string, pure map[*ssa.Functio
 		if ct.Panics != nil {
 			f.oblige("panics_exact", "no_return_when_panics", implies(retPC, not(panicsCond)), ptags, ct.Panics.Src)
 		}
+		for i, r := range ct.Rejects {
+			tags := r.Tags
+			if len(tags) == 0 {
+				tags = ct.Tags
+			}
+			f.oblige("rejects", r.Label, implies(retPC, not(rejectConds[i])), tags, r.Src)
+		}
 		// vacuity guard: some return must be reachable under the preconditions
 		ex.obls = append(ex.obls, &Obligation{Name: shortName(key) + "#cover#return", Kind: "cover", Func: key, Tags: ct.Tags, Prefix: len(ex.script), Goal: not(retPC), Cover: true, Blk: -1})
-	} else if ct.Panics == nil {
+	} else if ct.Panics == nil && ct.PanicsMay == nil {
 		ex.note("function never returns normally: " + key)
 	}
 	vc.Script = ex.script
